@@ -13,7 +13,7 @@ RULE = ("Alignments as in C06 (kalign results on generated protein/nucleotide se
         "kalign's own rows. Non-trivial = width > 60 and >= 1 gap in row 0; distinct by hash of the case.")
 ASSUMPTIONS = ["the MSF header's total Check is recorded but not judged (the property names the per-row values)",
                "molecule type is judged only when a C13 premise determines the kind of the residues"]
-BUDGET = {"quick": dict(examples=300, workers=12, seconds=75), "thorough": dict(examples=1300, workers=16, seconds=600)}
+BUDGET = {"quick": dict(examples=220, workers=12, seconds=70), "thorough": dict(examples=1300, workers=16, seconds=600)}
 
 
 @st.composite
@@ -123,3 +123,43 @@ def check(case):
                                      "head": text[:400]}, classes=cl, finding=fid)
     nt = L > 60 and "-" in tr[0]
     return engine.ok(nt, cl, {"source": src["source"], "width": L, "names": tn[:2], "rows": [r[:70] for r in tr[:2]], "kind": kind})
+
+
+# ------------------------------------------------------------------ enumerated size sweep (exact buffer-growth edges)
+
+def _sweep_items(tier):
+    rows = list(range(2, 401)) + list(range(500, 525)) + list(range(1000, 1040)) if tier == "quick" else list(range(2, 2201))
+    return [(n, 2, 2) for n in rows] + [(3, w, 2) for w in range(1, 261)] + [(3, 70, nl) for nl in range(1, 201)] + \
+           [(n, 61, 2) for n in (16, 17, 18, 340, 341, 342, 510, 511, 512, 513)]
+
+
+def _sweep_case(item):
+    n, w, nl = item
+    rows = []
+    for i in range(n):
+        r = ["ACGT"[(i + c) % 4] for c in range(w)]
+        if w > 1:
+            r[i % w] = "-"
+        rows.append("".join(r))
+    if w == 1:
+        rows = ["A-" if i % 2 else "-A" for i in range(n)]
+    names = [("s%d_" % i + "n" * nl)[:max(nl, len("s%d" % i))] for i in range(n)]
+    return {"src": {"names": names, "rows": rows, "source": "synthetic"}, "chain": ["fasta", "msf", "clu"][(n + w + nl) % 3:] + ["clu"]}
+
+
+def extra(tier, seed, stats):
+    from concurrent.futures import ThreadPoolExecutor
+    out = []
+    items = _sweep_items(tier)
+    cases_ = [_sweep_case(it) for it in items]
+    with ThreadPoolExecutor(max_workers=12) as ex:
+        res = list(ex.map(check, cases_))
+    for it, c, r in zip(items, cases_, res):
+        stats.evaluations += 1
+        stats.classes["sweep_items"] += 1
+        if r["status"] == "violation":
+            out.append({"case": c, "detail": dict(r["detail"], sweep_item=list(it)), "kind": r.get("kind")})
+        elif r.get("nontrivial"):
+            stats.nontrivial.add("sweep:%d:%d:%d" % it)
+    stats.extra["sweep"] = "every row count %s (width 2), every width 1..260 (3 rows), every name length 1..200 (exhaustive over those ranges)" % ("2..400, 500..524, 1000..1039" if tier == "quick" else "2..2200")
+    return out
